@@ -1,5 +1,68 @@
-"""Type sizes/alignments from `rustc -Zprint-type-sizes` (filled in when layout obligations need it)."""
+"""Type sizes/alignments of the real build, from `rustc -Zprint-type-sizes` on laythe_core (regenerated per tree hash and feature set).
+Only types that the crate instantiates are reported; the caller falls back to Unsupported for anything else."""
+import os
+import re
+import subprocess
 
 
 def type_sizes(program):
-    return {}
+    from .program import tree_hash, CACHE
+    cache = getattr(program, 'cache', None) or CACHE
+    feats = sorted(f for f in program.features if f != 'debug_assertions' and program._crate_has_feature('laythe_core', f))
+    th = tree_hash(program.repo)
+    d = os.path.join(cache, 'mir')
+    os.makedirs(d, exist_ok=True)
+    out = os.path.join(d, 'sizes-' + ('-'.join(feats) or 'default') + f'-{th}.txt')
+    import fcntl
+    lock = open(os.path.join(d, '.lock-sizes'), 'w')
+    fcntl.flock(lock, fcntl.LOCK_EX)
+    try:
+        _generate(program, cache, feats, d, out)
+    finally:
+        fcntl.flock(lock, fcntl.LOCK_UN)
+        lock.close()
+    return _parse(out)
+
+
+def _generate(program, cache, feats, d, out):
+    if not (os.path.exists(out) and os.path.getsize(out) > 1000):
+        env = dict(os.environ)
+        env['CARGO_NET_OFFLINE'] = 'true'
+        env['CARGO_TARGET_DIR'] = os.path.join(cache, 'target-sizes-' + ('-'.join(feats) or 'default'))
+        env.pop('RUSTFLAGS', None)
+        cmd = ['cargo', '+nightly', 'rustc', '--offline', '-p', 'laythe_core', '--lib']
+        if feats:
+            cmd += ['--features', ','.join(feats)]
+        cmd += ['--', '-Zprint-type-sizes']
+        fp = os.path.join(env['CARGO_TARGET_DIR'], 'debug', '.fingerprint')
+        if os.path.isdir(fp):
+            for n in os.listdir(fp):
+                if n.startswith('laythe_core-'):
+                    subprocess.run(['rm', '-rf', os.path.join(fp, n)])
+        r = subprocess.run(cmd, cwd=program.repo, env=env, stdout=subprocess.PIPE, stderr=subprocess.PIPE)
+        text = r.stdout.decode(errors='replace')
+        lines = [l for l in text.splitlines() if l.startswith('print-type-size type:')]
+        if r.returncode != 0 or len(lines) < 50:
+            raise RuntimeError('print-type-sizes failed:\n' + r.stderr.decode()[-2000:])
+        with open(out + '.tmp', 'w') as fh:
+            fh.write('\n'.join(lines) + '\n')
+        os.replace(out + '.tmp', out)
+        for n in os.listdir(d):
+            if n.startswith('sizes-') and os.path.join(d, n) != out and n.split('-')[1:-1] == os.path.basename(out).split('-')[1:-1]:
+                pass    # older hashes are small; keep
+
+
+def _parse(out):
+    from .tys import norm_ty, ty_head
+    res = {}
+    for l in open(out):
+        m = re.match(r'print-type-size type: `(.*)`: (\d+) bytes, alignment: (\d+) bytes', l)
+        if not m:
+            continue
+        t, sz, al = m.group(1), int(m.group(2)), int(m.group(3))
+        try:
+            nt = norm_ty(t)
+        except Exception:
+            continue
+        res.setdefault(nt, (sz, al))
+    return res
